@@ -437,4 +437,465 @@ theorem ungroupedGo_contiguous : ∀ (fuel off : Nat) (l : List (Kind × Char)) 
       exact ⟨rfl, ungroupedGo_contiguous fuel _ _ tl htl⟩
 
 
+/-! ## `CommentReducer` -/
+
+theorem reduce_ws (blk : Bool) : ∀ (ws : List Char) (st : RState), (∀ c ∈ ws, isWs c = true) →
+    reduce blk st ws = []
+  | [], _, _ => by simp [reduce]
+  | c :: rest, st, h => by
+    have hc : isWs c = true := h c (by simp)
+    have ih := fun st' => reduce_ws blk rest st' (fun x hx => h x (by simp [hx]))
+    cases st <;> simp [reduce, hc, ih] <;> split <;> simp [ih]
+
+theorem isPad_isWs {c : Char} (h : isPad c = true) : isWs c = true := by
+  simp [isPad] at h; exact h.1
+
+theorem isPad_ne_nl {c : Char} (h : isPad c = true) : c ≠ '\n' := by
+  simp [isPad] at h; exact h.2
+
+theorem reduce_pad_prefix (blk : Bool) : ∀ (ps x : List Char) (st : RState),
+    st ≠ .afterStar → (∀ c ∈ ps, isPad c = true) → reduce blk st (ps ++ x) = reduce blk st x
+  | [], _, _, _, _ => rfl
+  | c :: rest, x, st, hst, h => by
+    have hc := h c (by simp)
+    have ih := reduce_pad_prefix blk rest x st hst (fun y hy => h y (by simp [hy]))
+    cases st with
+    | firstLine => simp [reduce, isPad_isWs hc, isPad_ne_nl hc, ih]
+    | lineStart => simp [reduce, isPad_isWs hc, ih]
+    | afterStar => exact absurd rfl hst
+
+def lineEnd (blk : Bool) : RState → RState
+  | .firstLine => if blk then .lineStart else .firstLine
+  | _ => .lineStart
+
+def after (blk : Bool) : RState → List Char → RState
+  | st, [] => st
+  | .firstLine, c :: rest =>
+    if c = '\n' then after blk (if blk then .lineStart else .firstLine) rest else after blk .firstLine rest
+  | .lineStart, c :: rest =>
+    if isWs c then after blk .lineStart rest
+    else if c = '*' then after blk .afterStar rest else after blk .lineStart rest
+  | .afterStar, _ :: rest => after blk .lineStart rest
+
+theorem reduce_append (blk : Bool) : ∀ (a b : List Char) (st : RState),
+    reduce blk st (a ++ b) = reduce blk st a ++ reduce blk (after blk st a) b
+  | [], _, _ => by simp [reduce, after]
+  | c :: rest, b, st => by
+    cases st <;> simp only [List.cons_append, reduce, after] <;> (repeat' split) <;>
+      simp [reduce_append blk rest b]
+
+theorem isWs_nl : isWs '\n' = true := by decide
+
+/-- Trailing blanks and the newline: whatever the state, the next line starts in `lineEnd`. -/
+theorem reduce_pads_nl (blk : Bool) : ∀ (q y : List Char) (s : RState),
+    (∀ c ∈ q, isPad c = true) → reduce blk s (q ++ '\n' :: y) = reduce blk (lineEnd blk s) y
+  | [], y, s, _ => by
+    cases s <;> simp [reduce, lineEnd, isWs_nl]
+  | c :: rest, y, s, h => by
+    have hc := h c (by simp)
+    have ih := fun s' => reduce_pads_nl blk rest y s' (fun x hx => h x (by simp [hx]))
+    cases s with
+    | firstLine => simp [reduce, isPad_isWs hc, isPad_ne_nl hc, ih]
+    | lineStart => simp [reduce, isPad_isWs hc, ih]
+    | afterStar => simp [reduce, isPad_isWs hc, ih, lineEnd]
+
+theorem lineEnd_after (blk : Bool) : ∀ (core : List Char) (st : RState),
+    (∀ c ∈ core, c ≠ '\n') → lineEnd blk (after blk st core) = lineEnd blk st
+  | [], _, _ => rfl
+  | c :: rest, st, h => by
+    have hc : c ≠ '\n' := h c (by simp)
+    have ih := fun s' => lineEnd_after blk rest s' (fun x hx => h x (by simp [hx]))
+    cases st <;> simp only [after, hc, if_false] <;> (repeat' split) <;>
+      first | exact ih _ | (rw [ih]; rfl)
+
+theorem mem_takeWhile_imp {p : Char → Bool} : ∀ {l : List Char} {c : Char},
+    c ∈ l.takeWhile p → p c = true
+  | [], _, h => by simp at h
+  | x :: xs, c, h => by
+    simp only [List.takeWhile] at h
+    split at h
+    · rcases List.mem_cons.mp h with rfl | h
+      · assumption
+      · exact mem_takeWhile_imp h
+    · simp at h
+
+theorem mem_of_mem_dropWhile {p : Char → Bool} : ∀ {l : List Char} {c : Char},
+    c ∈ l.dropWhile p → c ∈ l
+  | [], _, h => by simp at h
+  | x :: xs, c, h => by
+    simp only [List.dropWhile] at h
+    split at h
+    · exact List.mem_cons_of_mem _ (mem_of_mem_dropWhile h)
+    · exact h
+
+/-- A line = leading blanks, its stripped form, trailing blanks. -/
+theorem line_decomp (l : List Char) : ∃ p q, l = p ++ stripLine l ++ q ∧
+    (∀ c ∈ p, isPad c = true) ∧ (∀ c ∈ q, isPad c = true) := by
+  refine ⟨l.takeWhile isPad, ((l.dropWhile isPad).reverse.takeWhile isPad).reverse, ?_, ?_, ?_⟩
+  · have h1 : l = l.takeWhile isPad ++ l.dropWhile isPad := (List.takeWhile_append_dropWhile).symm
+    have h2 : (l.dropWhile isPad).reverse = (l.dropWhile isPad).reverse.takeWhile isPad ++
+        (l.dropWhile isPad).reverse.dropWhile isPad := (List.takeWhile_append_dropWhile).symm
+    have h3 := congrArg List.reverse h2
+    simp only [List.reverse_reverse, List.reverse_append] at h3
+    simp only [stripLine, List.append_assoc]
+    rw [← h3]; exact h1
+  · intro c hc; exact mem_takeWhile_imp hc
+  · intro c hc
+    rw [List.mem_reverse] at hc
+    exact mem_takeWhile_imp hc
+
+theorem stripLine_no_nl {l : List Char} (h : ∀ c ∈ l, c ≠ '\n') : ∀ c ∈ stripLine l, c ≠ '\n' := by
+  intro c hc
+  apply h
+  simp only [stripLine, List.mem_reverse] at hc
+  exact mem_of_mem_dropWhile (List.mem_reverse.mp (mem_of_mem_dropWhile hc))
+
+theorem reduce_line (blk : Bool) (l y : List Char) (st : RState) (hst : st ≠ .afterStar)
+    (hl : ∀ c ∈ l, c ≠ '\n') :
+    reduce blk st (l ++ '\n' :: y) = reduce blk st (stripLine l) ++ reduce blk (lineEnd blk st) y := by
+  obtain ⟨p, q, hd, hp, hq⟩ := line_decomp l
+  have : l ++ '\n' :: y = p ++ (stripLine l ++ (q ++ '\n' :: y)) := by
+    conv => lhs; rw [hd]
+    simp
+  rw [this, reduce_pad_prefix blk p _ st hst hp, reduce_append, reduce_pads_nl blk q y _ hq,
+    lineEnd_after blk _ st (stripLine_no_nl hl)]
+
+theorem reduce_last_line (blk : Bool) (l : List Char) (st : RState) (hst : st ≠ .afterStar) :
+    reduce blk st l = reduce blk st (stripLine l) := by
+  obtain ⟨p, q, hd, hp, hq⟩ := line_decomp l
+  have : l = p ++ (stripLine l ++ q) := by
+    conv => lhs; rw [hd]
+    simp
+  conv => lhs; rw [this]
+  rw [reduce_pad_prefix blk p _ st hst hp, reduce_append,
+    reduce_ws blk q _ (fun c hc => isPad_isWs (hq c hc))]
+  simp
+
+
+/-- Lines joined by `'\n'` (inverse of `splitNl`). -/
+def joinNl : List (List Char) → List Char
+  | [] => []
+  | [l] => l
+  | l :: l2 :: ls => l ++ '\n' :: joinNl (l2 :: ls)
+
+theorem splitNl_ne_nil : ∀ s : List Char, splitNl s ≠ []
+  | [] => by simp [splitNl]
+  | c :: cs => by
+    have := splitNl_ne_nil cs
+    unfold splitNl
+    split
+    · simp
+    · split <;> simp
+
+theorem joinNl_splitNl : ∀ s : List Char, joinNl (splitNl s) = s
+  | [] => rfl
+  | c :: cs => by
+    have ih := joinNl_splitNl cs
+    have hne := splitNl_ne_nil cs
+    unfold splitNl
+    split
+    · rename_i h; exact absurd h hne
+    · rename_i l ls h
+      rw [h] at ih
+      split
+      · rename_i hc
+        subst hc
+        simp [joinNl, ih]
+      · cases ls with
+        | nil => simp [joinNl] at ih ⊢; exact ih
+        | cons l2 ls => simp [joinNl] at ih ⊢; exact ih
+
+theorem splitNl_no_nl : ∀ (s : List Char), ∀ l ∈ splitNl s, ∀ c ∈ l, c ≠ '\n'
+  | [], l, hl, c, hc => by
+    simp [splitNl] at hl; subst hl; simp at hc
+  | x :: xs, l, hl, c, hc => by
+    have ih := splitNl_no_nl xs
+    unfold splitNl at hl
+    split at hl
+    · simp at hl; subst hl
+      rename_i h; exact absurd h (splitNl_ne_nil xs)
+    · rename_i l0 ls h
+      rw [h] at ih
+      split at hl
+      · rcases List.mem_cons.mp hl with rfl | hl
+        · simp at hc
+        · exact ih l hl c hc
+      · rename_i hx
+        rcases List.mem_cons.mp hl with rfl | hl
+        · rcases List.mem_cons.mp hc with rfl | hc
+          · exact hx
+          · exact ih l0 (by simp) c hc
+        · exact ih l (by simp [hl]) c hc
+
+/-- `CommentReducer` sees only the stripped lines: two texts whose lines agree up to leading and
+trailing blanks yield the same characters (from a state a text can start in). -/
+theorem reduce_lines (blk : Bool) : ∀ (ls ls' : List (List Char)) (st : RState),
+    st ≠ .afterStar → (∀ l ∈ ls, ∀ c ∈ l, c ≠ '\n') → (∀ l ∈ ls', ∀ c ∈ l, c ≠ '\n') →
+    ls.map stripLine = ls'.map stripLine →
+    reduce blk st (joinNl ls) = reduce blk st (joinNl ls')
+  | [], [], _, _, _, _, _ => rfl
+  | [], _ :: _, _, _, _, _, h => by simp at h
+  | _ :: _, [], _, _, _, _, h => by simp at h
+  | [l], [l'], st, hst, _, _, h => by
+    simp only [List.map_cons, List.map_nil, List.cons.injEq, and_true] at h
+    simp only [joinNl]
+    rw [reduce_last_line blk l st hst, reduce_last_line blk l' st hst, h]
+  | [_], _ :: _ :: _, _, _, _, _, h => by simp at h
+  | _ :: _ :: _, [_], _, _, _, _, h => by simp at h
+  | l :: l2 :: ls, l' :: l2' :: ls', st, hst, h1, h2, h => by
+    simp only [List.map_cons, List.cons.injEq] at h
+    have hle : lineEnd blk st ≠ .afterStar := by
+      cases st <;> simp [lineEnd] <;> split <;> simp
+    have ih := reduce_lines blk (l2 :: ls) (l2' :: ls') (lineEnd blk st) hle
+      (fun x hx => h1 x (by simp [hx])) (fun x hx => h2 x (by simp [hx]))
+      (by simp [h.2.1, h.2.2])
+    simp only [joinNl]
+    rw [reduce_line blk l _ st hst (h1 l (by simp)), reduce_line blk l' _ st hst (h2 l' (by simp)),
+      h.1, ih]
+
+/-- The payload of a comment body depends only on `normComment`-style stripped lines. -/
+theorem reduce_strip_invariant (blk : Bool) (a b : List Char)
+    (h : (splitNl a).map stripLine = (splitNl b).map stripLine) :
+    reduce blk .firstLine a = reduce blk .firstLine b := by
+  have := reduce_lines blk (splitNl a) (splitNl b) .firstLine (by simp)
+    (splitNl_no_nl a) (splitNl_no_nl b) h
+  rwa [joinNl_splitNl, joinNl_splitNl] at this
+
+
+/-- A line comment's payload: the non-blank characters. -/
+theorem reduce_line_comment : ∀ (s : List Char) , reduce false .firstLine s = s.filter (fun c => !isWs c)
+  | [] => rfl
+  | c :: rest => by
+    have ih := reduce_line_comment rest
+    by_cases hn : c = '\n'
+    · subst hn; simp [reduce, ih, isWs_nl]
+    · by_cases hw : isWs c = true <;> simp [reduce, hn, hw, ih]
+
+/-- Without a `*` in the text, a block comment's payload is the non-blank characters too. -/
+theorem reduce_no_star (blk : Bool) : ∀ (s : List Char) (st : RState), (∀ c ∈ s, c ≠ '*') →
+    reduce blk st s = s.filter (fun c => !isWs c)
+  | [], _, _ => by simp [reduce]
+  | c :: rest, st, h => by
+    have hc : c ≠ '*' := h c (by simp)
+    have ih := fun st' => reduce_no_star blk rest st' (fun x hx => h x (by simp [hx]))
+    by_cases hw : isWs c = true
+    · cases st <;> simp [reduce, hw, ih] <;> split <;> simp [ih]
+    · have hn : c ≠ '\n' := fun e => hw (e ▸ isWs_nl)
+      cases st <;> simp [reduce, hw, hc, hn, ih]
+
+/-- Dropping a non-blank character changes such a payload (it gets shorter). -/
+theorem filter_erase_ne (x y : List Char) (c : Char) (hc : isWs c = false) :
+    (x ++ c :: y).filter (fun c => !isWs c) ≠ (x ++ y).filter (fun c => !isWs c) := by
+  intro h
+  have := congrArg List.length h
+  simp [List.filter_append, hc] at this
+
+/-! ## The safety net -/
+
+theorem streamsEq_true : ∀ (a b : List (Option Char)), streamsEq? a b = some true →
+    a = b ∧ (sequence a).isSome
+  | [], [], _ => ⟨rfl, rfl⟩
+  | [], none :: _, h => by simp [streamsEq?] at h
+  | [], some _ :: _, h => by simp [streamsEq?] at h
+  | none :: _, _, h => by simp [streamsEq?] at h
+  | some _ :: _, [], h => by simp [streamsEq?] at h
+  | some _ :: _, none :: _, h => by simp [streamsEq?] at h
+  | some x :: a, some y :: b, h => by
+    simp only [streamsEq?] at h
+    split at h
+    · rename_i hxy
+      obtain ⟨h1, h2⟩ := streamsEq_true a b h
+      subst hxy h1
+      refine ⟨rfl, ?_⟩
+      simp only [sequence]
+      cases hs : sequence a <;> simp_all
+    · simp at h
+
+theorem streamsEq_refl : ∀ (a : List (Option Char)), (sequence a).isSome → streamsEq? a a = some true
+  | [], _ => rfl
+  | none :: _, h => by simp [sequence] at h
+  | some x :: a, h => by
+    have : (sequence a).isSome := by
+      simp only [sequence] at h
+      cases hs : sequence a <;> simp_all
+    simp [streamsEq?, streamsEq_refl a this]
+
+
+theorem sequence_eq_some : ∀ (a : List (Option Char)) (l : List Char),
+    sequence a = some l ↔ a = l.map some
+  | [], l => by cases l <;> simp [sequence]
+  | none :: a, l => by cases l <;> simp [sequence]
+  | some c :: a, l => by
+    cases l with
+    | nil => simp [sequence]
+    | cons x xs =>
+      simp only [sequence, Option.map_eq_some_iff, List.map_cons, List.cons.injEq, Option.some.injEq]
+      constructor
+      · rintro ⟨t, ht, rfl, rfl⟩
+        exact ⟨rfl, (sequence_eq_some a t).mp ht⟩
+      · rintro ⟨rfl, h⟩
+        exact ⟨xs, (sequence_eq_some a xs).mpr h, rfl, rfl⟩
+
+/-- The comparison of the safety net says "unchanged" exactly when both payloads exist and are equal. -/
+theorem changed_false_iff (orig new : List Char) :
+    changedCommentContent? orig new = some false ↔
+      (commentPayload? orig).isSome ∧ commentPayload? orig = commentPayload? new := by
+  obtain ⟨a, ha⟩ := Option.isSome_iff_exists.mp (ungrouped_isSome orig)
+  obtain ⟨b, hb⟩ := Option.isSome_iff_exists.mp (ungrouped_isSome new)
+  simp only [changedCommentContent?, commentPayload?, ha, hb, Option.map_eq_some_iff]
+  constructor
+  · rintro ⟨r, hr, hnot⟩
+    have : r = true := by cases r <;> simp_all
+    subst this
+    obtain ⟨h1, h2⟩ := streamsEq_true _ _ hr
+    exact ⟨h2, by rw [h1]⟩
+  · rintro ⟨h1, h2⟩
+    obtain ⟨l, hl⟩ := Option.isSome_iff_exists.mp h1
+    have e1 := (sequence_eq_some _ _).mp hl
+    have e2 := (sequence_eq_some _ _).mp (h2 ▸ hl)
+    refine ⟨true, ?_, rfl⟩
+    rw [e2, ← e1]
+    exact streamsEq_refl _ h1
+
+/-! ## The oracle -/
+
+theorem dropWhile_all {p : Char → Bool} : ∀ (a b : List Char), (∀ c ∈ a, p c = true) →
+    (a ++ b).dropWhile p = b.dropWhile p
+  | [], _, _ => rfl
+  | x :: xs, b, h => by
+    simp [h x (by simp), dropWhile_all xs b (fun c hc => h c (by simp [hc]))]
+
+theorem dropWhile_append_of_exists {p : Char → Bool} : ∀ (a b : List Char),
+    (∃ c ∈ a, p c = false) → (a ++ b).dropWhile p = a.dropWhile p ++ b
+  | [], _, h => by simp at h
+  | x :: xs, b, h => by
+    cases hx : p x
+    · simp [List.dropWhile, hx]
+    · have : ∃ c ∈ xs, p c = false := by
+        obtain ⟨c, hc, hpc⟩ := h
+        rcases List.mem_cons.mp hc with rfl | hc
+        · simp [hx] at hpc
+        · exact ⟨c, hc, hpc⟩
+      simp [List.dropWhile, hx, dropWhile_append_of_exists xs b this]
+
+theorem dropWhile_eq_nil_of_all {p : Char → Bool} : ∀ (a : List Char), (∀ c ∈ a, p c = true) →
+    a.dropWhile p = []
+  | [], _ => rfl
+  | x :: xs, h => by
+    simp [List.dropWhile, h x (by simp), dropWhile_eq_nil_of_all xs (fun c hc => h c (by simp [hc]))]
+
+/-- Blanks put in front of a line or after it do not change its stripped form. -/
+theorem stripLine_pads (p l q : List Char) (hp : ∀ c ∈ p, isPad c = true)
+    (hq : ∀ c ∈ q, isPad c = true) : stripLine (p ++ l ++ q) = stripLine l := by
+  simp only [stripLine, List.append_assoc]
+  rw [dropWhile_all p _ hp]
+  by_cases hall : ∀ c ∈ l, isPad c = true
+  · have h1 : (l ++ q).dropWhile isPad = [] :=
+      dropWhile_eq_nil_of_all _ (fun c hc => by
+        rcases List.mem_append.mp hc with h | h
+        · exact hall c h
+        · exact hq c h)
+    rw [h1, dropWhile_eq_nil_of_all l hall]
+  · have hex : ∃ c ∈ l, isPad c = false := by
+      apply Classical.byContradiction
+      intro hne
+      apply hall
+      intro c hc
+      cases hpc : isPad c
+      · exact absurd ⟨c, hc, hpc⟩ hne
+      · rfl
+    rw [dropWhile_append_of_exists l q hex, List.reverse_append,
+      dropWhile_all q.reverse _ (fun c hc => hq c (List.mem_reverse.mp hc))]
+
+theorem splitNl_line : ∀ (l : List Char), (∀ c ∈ l, c ≠ '\n') → splitNl l = [l]
+  | [], _ => rfl
+  | c :: cs, h => by
+    have hc : c ≠ '\n' := h c (by simp)
+    simp [splitNl, splitNl_line cs (fun x hx => h x (by simp [hx])), hc]
+
+theorem splitNl_line_append : ∀ (l y : List Char), (∀ c ∈ l, c ≠ '\n') →
+    splitNl (l ++ '\n' :: y) = l :: splitNl y
+  | [], y, _ => by
+    have := splitNl_ne_nil y
+    cases hy : splitNl y with
+    | nil => exact absurd hy this
+    | cons a as => simp [splitNl, hy]
+  | c :: cs, y, h => by
+    have hc : c ≠ '\n' := h c (by simp)
+    simp [splitNl, splitNl_line_append cs y (fun x hx => h x (by simp [hx])), hc]
+
+theorem splitNl_joinNl : ∀ (ls : List (List Char)), ls ≠ [] → (∀ l ∈ ls, ∀ c ∈ l, c ≠ '\n') →
+    splitNl (joinNl ls) = ls
+  | [], h, _ => absurd rfl h
+  | [l], _, h => by simpa [joinNl] using splitNl_line l (h l (by simp))
+  | l :: l2 :: ls, _, h => by
+    have ih := splitNl_joinNl (l2 :: ls) (by simp) (fun x hx => h x (by simp [hx]))
+    simp only [joinNl]
+    rw [splitNl_line_append l _ (h l (by simp)), ih]
+
+
+theorem utf8Len_append : ∀ (a b : List Char), utf8Len (a ++ b) = utf8Len a + utf8Len b
+  | [], _ => by simp [utf8Len]
+  | c :: cs, b => by simp [utf8Len, utf8Len_append cs b]; omega
+
+theorem utf8Size_pos (c : Char) : 0 < c.utf8Size := by
+  have := Char.utf8Size_pos c
+  exact this
+
+/-- `&s[..a.len()]` of `a ++ b` is `a`. -/
+theorem takeBytes_prefix : ∀ (a b : List Char), takeBytes? (utf8Len a) (a ++ b) = some a
+  | [], b => by cases b <;> simp [utf8Len, takeBytes?]
+  | c :: cs, b => by
+    have hp := utf8Size_pos c
+    have ih := takeBytes_prefix cs b
+    obtain ⟨n, hn⟩ : ∃ n, utf8Len (c :: cs) = n + 1 := ⟨c.utf8Size + utf8Len cs - 1, by simp [utf8Len]; omega⟩
+    rw [hn]
+    simp only [List.cons_append, takeBytes?]
+    have h1 : c.utf8Size ≤ n + 1 := by simp [utf8Len] at hn; omega
+    have h2 : n + 1 - c.utf8Size = utf8Len cs := by simp [utf8Len] at hn; omega
+    simp [h1, h2, ih]
+
+/-- A terminated plain block comment `/*body*/`: the header and the closer are removed. -/
+theorem removeCommentHeader_block (body : List Char)
+    (h1 : startsWith body ['*'] = false) (h2 : startsWith body ['!'] = false) :
+    removeCommentHeader? ('/' :: '*' :: (body ++ ['*', '/'])) = some body := by
+  have hlen : utf8Len ('/' :: '*' :: (body ++ ['*', '/'])) = utf8Len ('/' :: '*' :: body) + 2 := by
+    have : ('/' :: '*' :: (body ++ ['*', '/'])) = ('/' :: '*' :: body) ++ ['*', '/'] := by simp
+    rw [this, utf8Len_append]
+    have : utf8Len ['*', '/'] = 2 := by decide
+    omega
+  have htake : takeBytes? (utf8Len ('/' :: '*' :: body)) ('/' :: '*' :: (body ++ ['*', '/']))
+      = some ('/' :: '*' :: body) := by
+    have := takeBytes_prefix ('/' :: '*' :: body) ['*', '/']
+    simpa using this
+  have hge : 2 ≤ utf8Len ('/' :: '*' :: body) := by
+    simp [utf8Len]
+    have : Char.utf8Size '/' = 1 := by decide
+    have : Char.utf8Size '*' = 1 := by decide
+    omega
+  have hs : stripBlock? 2 ('/' :: '*' :: (body ++ ['*', '/'])) = some body := by
+    simp only [stripBlock?, hlen]
+    have : ¬ (utf8Len ('/' :: '*' :: body) + 2 < 2 + 2) := by omega
+    simp [this, htake]
+  cases body with
+  | nil => decide
+  | cons c cs =>
+    have hc1 : (c == '*') = false := by simpa [startsWith] using h1
+    have hc2 : (c == '!') = false := by simpa [startsWith] using h2
+    simp [removeCommentHeader?, startsWith, hc1, hc2] at hs ⊢
+    exact hs
+
+
+/-- Two streams without a panic event can always be compared. -/
+theorem streamsEq_total : ∀ (la lb : List Char),
+    ∃ r, streamsEq? (la.map some) (lb.map some) = some r
+  | [], [] => ⟨true, rfl⟩
+  | [], _ :: _ => ⟨false, rfl⟩
+  | _ :: _, [] => ⟨false, rfl⟩
+  | x :: a, y :: b => by
+    simp only [List.map_cons, streamsEq?]
+    split
+    · exact streamsEq_total a b
+    · exact ⟨false, rfl⟩
+
 end RF.Lemmas.Comment
